@@ -31,7 +31,7 @@ Evs == Traces[tid].ev
 
 TInit == /\ tid \in 1..Len(Traces) /\ l = 1
          /\ objs = [o \in 1..MaxObj |-> IF o = 1 THEN Source ELSE Null] /\ hist = <<>>
-         /\ bid = 1 /\ train = <<>> /\ pidx = <<>> /\ pc = "trace" /\ comp = <<>> /\ th2 = <<>> /\ cc = 0
+         /\ bid = 1 /\ train = <<>> /\ pidx = <<>> /\ pc = "trace" /\ comp = <<>> /\ th2 = <<>> /\ cc = 0 /\ fits = <<>>
 
 ExpectedTok(e) == LET ob == RestrOb(e.pidx) IN [r \in 1..Len(e.rows) |-> ob.vec[e.rows[r]]]
 SumSq(t) == SumS([k \in 1..Len(t) |-> t[k] * t[k]])
@@ -40,9 +40,19 @@ Support(t) == {k \in 1..Len(t) : t[k] # 0}
 \* the subset the library lists for it and the component ids read off the member's RDM rows (tokens)
 WhyFam(e) == IF e.subset # FamilyList(e.n)[e.i] THEN "family-index"
              ELSE IF e.rows # e.subset \/ e.nparam # Len(e.subset) THEN "family-member" ELSE ""
+\* sessions of fits on ONE model object (hdr.fitter = "session", hdr.basis = the integer basis RDMs, hdr.mfp / hdr.dfp =
+\* fingerprints of the model's RDMs and of the data before the first fit): after every fit the fingerprints are the same
+\* and predict(theta) for the logged integer theta is still Predict(theta, ORIGINAL basis) (action Fit leaves the model alone)
+\* Predict of Fitting for a logged basis of any number of conditions
+PredictB(th, B) == [k \in 1..Len(B[1]) |-> SumS([j \in 1..Len(B) |-> th[j] * B[j][k]])]
+WhySess(e) == IF e.mfp # Hdr.mfp THEN "model-modified"
+              ELSE IF e.dfp # Hdr.dfp THEN "data-modified"
+              ELSE IF e.pred # PredictB(e.th, Hdr.basis) THEN "prediction-after-fit"
+              ELSE IF ~e.same THEN "fit-depends-on-history" ELSE ""
 Why(e) ==
   LET th == e.theta  kk == Hdr.K  f == Hdr.fitter IN
   IF f = "family" THEN WhyFam(e)
+  ELSE IF f = "session" THEN WhySess(e)
   ELSE IF e.tok # ExpectedTok(e) THEN "data-entries"
   ELSE IF \E i \in 1..Len(e.comps) : e.comps[i].s9 > e.s9 + Hdr.tol9 THEN "beaten"
   ELSE IF f = "fit_select" THEN (IF th[1] >= 0 /\ th[1] < kk THEN "" ELSE "index-range")
@@ -60,8 +70,9 @@ TStep == /\ l >= 1 /\ l <= Len(Evs)
             IF Why(e) = ""
             THEN /\ l' = l + 1 /\ (l = Len(Evs) => PrintT(ToJson([accept |-> tid])))
             ELSE /\ PrintT(ToJson([reject |-> tid, l |-> l, why |-> Why(e),
-                                   expected |-> IF Hdr.fitter = "family" THEN FamilyList(e.n)[e.i] ELSE ExpectedTok(e)]))
+                                   expected |-> IF Hdr.fitter = "family" THEN FamilyList(e.n)[e.i]
+                                                ELSE IF Hdr.fitter = "session" THEN PredictB(e.th, Hdr.basis) ELSE ExpectedTok(e)]))
                  /\ l' = 0
-         /\ UNCHANGED <<objs, hist, bid, train, pidx, pc, comp, th2, cc, tid>>
-TSpec == TInit /\ [][TStep]_<<objs, hist, bid, train, pidx, pc, comp, th2, cc, tid, l>>
+         /\ UNCHANGED <<objs, hist, bid, train, pidx, pc, comp, th2, cc, fits, tid>>
+TSpec == TInit /\ [][TStep]_<<objs, hist, bid, train, pidx, pc, comp, th2, cc, fits, tid, l>>
 =============================================================================
